@@ -12,7 +12,7 @@ def check(pid, category, text, note, technique, design_ref, engine):
 
 
 check("C16", "model_checking",
-      "Explicit-state BFS over every reachable (protocol,command) counter state of both real implementations (12,480 states each, closure reached) in lock-step with a reference successor function; real threads on the threaded socket under a controlled scheduler, all schedules up to a pre-emption bound; every sequenced datagram of an async run (incl. a lossy phase) classified by range and checked to be the successor of the previous one of its kind, every threaded call site classified by range.",
+      "Explicit-state BFS over every reachable (protocol,command) counter state of both real implementations (12,480 states each, closure reached) in lock-step with a reference successor function; real threads on the threaded socket under a controlled scheduler, all schedules up to a pre-emption bound; every sequenced datagram of an async run (incl. a lossy phase) classified by range and checked to be the successor of the previous one of its kind (also on a re-connected spa object and on a really connected blocking client), every threaded call site classified by range.",
       "CPython GIL with switches at traced line/opcode boundaries only; counter method depends only on the two counters; request kinds = those the clients can emit in the scripted run / enumerated call sites.",
       "explicit-state BFS (closure) + pre-emption-bounded schedule enumeration of real threads", "DESIGN.md §2 C16", "E4+E5")
 
@@ -21,15 +21,15 @@ check("C01", "fault_enumeration",
       "One pattern block (neighbouring 39-byte slices differ, all byte values) with the complement as client block plus the delimiter blocks - beyond those the transfer code only slices and joins; delays shorter than the gap between transfers; virtual time.",
       "exhaustive fate-vector enumeration + deviation-bounded fault injection on the real transfer code", "DESIGN.md §2 C01", "E1+E2+E3")
 check("C05", "model_checking",
-      "All histories (stateless, fresh really-connected client per history) up to depth 3/4 over a 13-event alphabet of partial updates (0-3 records, overlapping/repeated positions, 1-byte record, back-to-back messages), refreshes served by the real simulator a partial update landing mid-refresh, and histories that BEGIN with a partial update inside the handshake (after every client datagram x delays); async and threaded clients; lock-step with a sequentially updated reference block; exactly one protocol-range STATQ per STATP.",
+      "All histories (stateless, fresh really-connected client per history) up to depth 3/4 over a 13-event alphabet of partial updates (0-3 records, overlapping/repeated positions, 1-byte record, back-to-back messages), refreshes served by the real simulator a partial update landing mid-refresh, bursts of 30..600 pending updates, the same spa object connected twice, and histories that BEGIN with a partial update inside the handshake (after every client datagram x delays); async and threaded clients; lock-step with a sequentially updated reference block; exactly one protocol-range STATQ per STATP.",
       "positions/values from a small set (handlers treat them opaquely); refresh window of the default snapshot's tables.",
       "exhaustive bounded-depth history enumeration against a reference model", "DESIGN.md §2 C05", "E1+E2")
 check("C06", "model_checking",
-      "Real protocol.get/lock/wait_for_response of a connected client: 1-3 concurrent callers (incl. the status-block request engine) x arrival offsets x retry counts, ALL reply-fate vectors {deliver,drop,late}, unsolicited noise near timeouts, reply latencies on a 50 ms grid inside the time-out, timer-order (polling jitter) and timer-batch deviations with a third caller swept over three polling periods; oracle on datagrams + wait intervals (attempts<=R, fresh request per attempt, one in flight, FIFO service, result iff reply, completion bound). Gates: every gated API invoked on a tick grid around (and long after) the moment the spa stops answering pings, in the idle and in the active configuration, and on a spa whose connection attempt failed at each handshake step.",
+      "Real protocol.get/lock/wait_for_response of a connected client: 1-3 concurrent callers (incl. the status-block request engine) x arrival offsets x retry counts, ALL reply-fate vectors {deliver,drop,late}, unsolicited noise near timeouts, reply latencies on a 50 ms grid inside the time-out, one caller cancelled by its client at every phase, timer-order (polling jitter) and timer-batch deviations with a third caller swept over three polling periods; oracle on datagrams + wait intervals (attempts<=R, fresh request per attempt, one in flight, FIFO service, result iff reply, completion bound). Gates: every gated API invoked on a tick grid around (and long after) the moment the spa stops answering pings, in the idle and in the active configuration, and on a spa whose connection attempt failed at each handshake step.",
       "wait intervals observed via a harness-installed wrapper of wait_for_response; virtual time; simulator as responder. The check-then-act gate defect is a recorded known finding.",
       "exhaustive fate-vector + bounded schedule-deviation exploration of the real request engine", "DESIGN.md §2 C06", "E1+E2+E3")
 check("C07", "model_checking",
-      "Connected client with all five consumers (queue wrapped from outside, handshake included): all arrival sequences up to length 3 over a 13-datagram alphabet (known, unknown, unsolicited, mis-addressed, malformed framing) x relative offsets x active waiter (none, ping, status block, a ping whose first attempt is lost with arrivals on a 20 ms grid around its time-out and retry instants), slow client callbacks, plus timer-order/batch deviations; each item popped exactly once by unhandled or an accepting consumer, head residence <= 3 polls, mis-addressed content never re-queued, no effect on block/events/observers.",
+      "Connected client with all five consumers (queue wrapped from outside, handshake included): all arrival sequences up to length 3 over a 13-datagram alphabet (known, unknown, unsolicited, mis-addressed, malformed framing) x relative offsets x active waiter (none, ping, status block, a ping whose first attempt is lost with arrivals on a 20 ms grid around its time-out and retry instants), slow client callbacks, two connections in one process, plus timer-order/batch deviations; each item popped exactly once by unhandled or an accepting consumer, head residence <= 3 polls, mis-addressed content never re-queued, no effect on block/events/observers.",
       "well-formed payloads for known verbs (malformation at framing level, as the property says).",
       "exhaustive bounded arrival-sequence enumeration + bounded schedule deviations on the real dispatch code", "DESIGN.md §2 C07", "E1+E2+E3")
 
@@ -38,15 +38,15 @@ check("C08", "model_checking",
       "environment injected at the discover/_connect seams (as tests/test_spaman.py does); light facade that fails exactly when the real constructor must; state canonicalisation documented in props/c08.py.",
       "explicit-state BFS over real objects (rebuild-and-replay) to closure, reference-table lock-step", "DESIGN.md §2 C08", "E4 on E1")
 check("C09", "fault_enumeration",
-      "Whole async stack against the real simulator in virtual time: fault scripts (start point x up to 3 phases from {blackout, RF-error, lossy(every 2nd request / STATU+CURCH / all pings)} x durations, connections made under loss followed by a long blackout, plain and yielding client handlers) and user reset/set_spa_info injected at EVERY loop step of the baseline connection (+ timer-order deviations); bounded liveness: CONNECTED within B virtual seconds of the network being healthy with the client block mirroring the spa, unreachable spa reported in time, sequence pump never ends.",
+      "Whole async stack against the real simulator in virtual time: fault scripts (start point x up to 3 phases from {blackout, RF-error, lossy(every 2nd request / STATU+CURCH / all pings), sends refused by the OS} x durations, connections made under loss followed by a long blackout, plain and yielding client handlers) and user reset/set_spa_info injected at EVERY loop step of the baseline connection (+ timer-order deviations); bounded liveness: CONNECTED within B virtual seconds of the network being healthy with the client block mirroring the spa, unreachable spa reported in time, sequence pump never ends.",
       "bound derived from the idle GeckoConfig; network healthy for ever after the script; two recorded known findings (ERROR_SPA_NOT_FOUND terminal, reset in the last steps of a connection attempt).",
       "exhaustive crash-point injection + enumerated fault scripts on the real stack (bounded liveness)", "DESIGN.md §2 C09", "E1+E2+E3")
 check("C10", "fault_enumeration",
-      "Whole async stack: async_reset and context exit injected at every loop step through discovery/handshake/early steady state and a stride through the periodic tail, blackout and error states (+ first steps of every state, RF-error/slow-client, yielding-client, failed-send and corrupted-config-file baselines, the library's own ping-triggered resets, partial updates inside the teardown window, timer deviations before the injection, reconnect cycles); every endpoint/task existing at the injection must be closed/done promptly, late datagrams to old endpoints must not reach client observers, resources must not grow over cycles.",
+      "Whole async stack: async_reset and context exit injected at every loop step through discovery/handshake/early steady state and a stride through the periodic tail, blackout and error states (+ first steps of every state, RF-error/slow-client, yielding-client, failed-send and corrupted-config-file baselines, the library's own ping-triggered resets, partial updates inside the teardown window, a per-connection cap on live SPA tasks/endpoints after every reset, timer deviations before the injection, reconnect cycles); every endpoint/task existing at the injection must be closed/done promptly, late datagrams to old endpoints must not reach client observers, resources must not grow over cycles.",
       "endpoints = VTransports handed out by the harness loop; 'promptly' = 5 virtual s (12 s for a discovery legitimately in progress); known finding: context exit leaves the spa endpoint open.",
       "exhaustive crash-point injection with resource accounting on the real stack", "DESIGN.md §2 C10", "E1+E2+E3")
 check("C15", "model_checking",
-      "Real GeckoAsyncLocator.discover against scripted responders: all spa sets of size 0..3 from a pool with '|', latin-1 and empty names x per-spa latency from a 6-value grid around the initial wait and the timeout x reply multiplicity (1, 2, 8, 12) x loss of the first 1..2 replies of one spa x 6 filter modes (incl. a sub-net address), plus timer-order/batch deviations <=2; oracle on the listed descriptors, the return time, endpoint closure and helper tasks.",
+      "Real GeckoAsyncLocator.discover against scripted responders: all spa sets of size 0..3 from a pool with '|', latin-1 and empty names x per-spa latency from a 6-value grid around the initial wait and the timeout x reply multiplicity (1, 2, 8, 12) x loss of the first 1..2 replies of one spa x 6 filter modes (incl. a sub-net address), awaiting client handlers, a loaded host (late wake-ups), plus timer-order/batch deviations <=2; oracle on the listed descriptors, the return time, endpoint closure and helper tasks.",
       "responders answer every broadcast they hear; replies built by a reference encoder; a spa that lost only its first reply must be listed by a run that lasts the initial wait.",
       "exhaustive scenario enumeration + bounded schedule deviations on the real locator", "DESIGN.md §2 C15", "E1+E2+E3")
 check("C17", "model_checking",
@@ -55,15 +55,15 @@ check("C17", "model_checking",
       "exhaustive enumeration of sleeper/switch plans with all tie orders (unbounded deviations)", "DESIGN.md §2 C17", "E1+E3")
 
 check("C02", "exploration",
-      "Real accessors of every shipped table on real structure objects: per geometric shape ALL prior field contents x ALL domain values (bit-fields), ALL domain values x prior patterns (bytes, words, HH:MM, every raw temperature word in both units) at the shipped position, both block edges and the middle; every one of the ~20,500 items on three backgrounds; both write paths; reference bit-field codec built from the raw declarations.",
+      "Real accessors of every shipped table on real structure objects: per geometric shape ALL prior field contents x ALL domain values (bit-fields), ALL domain values x prior patterns (bytes, words, HH:MM, every raw temperature word in both units) at the shipped position, both block edges and the middle; every one of the ~20,500 items on three backgrounds; both write paths; every device write followed onto the wire (the clients' SPACK constructor decoded by the reference layout); reference bit-field codec built from the raw declarations.",
       "background outside the field: seed-chosen pattern; shapes that exist only read-only are tested for refusal only.",
       "exhaustive input enumeration per shape + per-item binding sweep against a reference codec", "DESIGN.md §2 C02", "E6")
 check("C03", "model_checking",
-      "Real replace_status_block_segment/status_block_changed on both structure classes: per shape every patch geometry around the item x ALL 256^2 old/new contents of the patched byte (boundary sets for the rest), every shipped table through a full refresh and a changing + non-changing patch of every byte, a BFS to closure over watch/unwatch/update histories incl. watch/unwatch calls and updates made from inside a notification, and refreshes through the real transfer code of both clients with 2-byte items on every segment boundary; oracle = reference decode of old/new blocks, callback count/arguments, block already swapped in every callback.",
+      "Real replace_status_block_segment/status_block_changed on both structure classes: per shape every patch geometry around the item x ALL 256^2 old/new contents of the patched byte (boundary sets for the rest), every shipped table through a full refresh and a changing + non-changing patch of every byte, every sequence of the basic observer operations up to length 5 and a BFS to closure over watch/unwatch/update histories incl. watch/unwatch calls and updates made from inside a notification, and refreshes through the real transfer code of both clients with 2-byte items on every segment boundary; oracle = reference decode of old/new blocks, callback count/arguments, block already swapped in every callback.",
       "quick tier does the full 256^2 sweep on the blocking structure at the shipped position and boundary pairs on the edge twins / awaitable structure; thorough does all.",
       "exhaustive update enumeration against a reference decoder + explicit-state BFS of observer lists", "DESIGN.md §2 C03", "E4+E6")
 check("C04", "exploration",
-      "Every constructor of driver/protocol/*.py with every scalar field over its whole range, payload token strings (framing tags, newlines, NUL, <, >, |) up to length 4/5, all reminder types x signed day boundaries, every shipped platform x version in the config-file reply, latin-1 hello names, every byte value inside packet identifiers, long-lived handlers decoding after messages of other shapes; compared byte-for-byte with an independent reference codec, offered to every standard handler family (exactly one must claim it), decoded by a fresh peer handler, passed through the framing extractor, reply addressing swapped.",
+      "Every constructor of driver/protocol/*.py with every scalar field over its whole range, payload token strings (framing tags, newlines, NUL, <, >, |) up to length 4/5, all reminder types x signed day boundaries, every shipped platform x version in the config-file reply, latin-1 hello names, every byte value inside packet identifiers, long-lived handlers decoding after messages of other shapes and seeing the same identifiers from other addresses; compared byte-for-byte with an independent reference codec, offered to every standard handler family (exactly one must claim it), decoded by a fresh peer handler, passed through the framing extractor, reply addressing swapped.",
       "reference codec written from the protocol layout; SETWC/WCREQ unclaimed is a recorded known finding.",
       "exhaustive field-domain enumeration against a reference codec", "DESIGN.md §2 C04", "E6")
 check("C11", "exploration",
@@ -83,15 +83,15 @@ check("C14", "exploration",
       "heater built on a stand-in facade over the real tables.",
       "exhaustive value-domain enumeration", "DESIGN.md §2 C14", "E6")
 check("C18", "exploration",
-      "Complete enumeration of the shipped table set (164 modules, ~20,500 items): geometry from the raw declarations (inside block, bit field inside bytes, labels representable), advertised keys resolve, module name/version/config-file naming round trip, item-by-item comparison with the layout pinned under /verif/pins, effective writability, both clients' real table lookup and requested refresh window for every platform x cfg x log, and the published layouts on long-lived structures that carried other tables before.",
+      "Complete enumeration of the shipped table set (164 modules, ~20,500 items): geometry from the raw declarations (inside block, bit field inside bytes, labels representable), advertised keys resolve, module name/version/config-file naming round trip, item-by-item comparison with the layout pinned under /verif/pins, effective writability, both clients' real table lookup and requested refresh window for every platform x cfg x log and for versions no module declares, and the published layouts on long-lived structures that carried other tables before.",
       "finite configuration space enumerated completely, not behaviours; two table-data defects are recorded known findings.",
       "exhaustive enumeration of a finite table set + golden layout comparison", "DESIGN.md §2 C18", "E6")
 check("C19", "exploration",
-      "Real GeckoShell.do_snapshot through the shell's log format parsed back (every byte value at every position class, version tuples, pack names, snapshot names over a token alphabet); DEBUG traffic log of the real blocking handshake for every simulator segment size 4..255 and STATV contents over all strings <=3/4 from the quote/escape alphabet reassembled by the parser, irregular segmentations; every shipped snapshot loaded into the simulator and served to a real async client (incl. its periodic refresh), one simulator reloading all of them in sequence, and served with the simulator's own loss model on (its random draws as choice points, all vectors / deviation-bounded, both clients).",
+      "Real GeckoShell.do_snapshot through the shell's log format parsed back (every byte value at every position class, version tuples, pack names, snapshot names over a token alphabet; one long-lived shell); DEBUG traffic log of the real blocking handshake for every simulator segment size 4..255 and STATV contents over all strings <=3/4 from the quote/escape alphabet reassembled by the parser, irregular segmentations; every shipped snapshot loaded into the simulator and served to a real async client (incl. its periodic refresh), one simulator reloading all of them in sequence, and served with the simulator's own loss model on (its random draws as choice points, all vectors / deviation-bounded, both clients).",
       "scratch log files under /tmp, removed after each case.",
       "exhaustive input enumeration of the capture/parse round trip", "DESIGN.md §2 C19", "E6 + stepped engine")
 check("C20", "model_checking",
-      "Real GeckoUdpSocket._thread_func stepped in virtual time: all registration orders x all datagram sequences <=3 with raising handlers and every subset of handlers being pending requests; all (T, N, reply point) retry cases incl. long budgets, requests behind a send backlog and sends refused by the OS; all enqueue patterns of <=4 sends (distinct and repeated handler objects) under fast incoming traffic; handshake of the blocking client vs the real simulator under every loss vector from a grid (+ budget exhaustion); queue_send and handler-list cleanup vs add_receive_handler from real threads under the controlled scheduler, pre-emption bounded.",
+      "Real GeckoUdpSocket._thread_func stepped in virtual time: all registration orders x all datagram sequences <=3 with raising handlers and every subset of handlers being pending requests; all (T, N, reply point) retry cases incl. long budgets, requests behind a send backlog and sends refused by the OS; all enqueue patterns of <=4 sends (distinct and repeated handler objects) under fast incoming traffic, retransmissions against a send backlog; handshake of the blocking client vs the real simulator under every loss vector from a grid (+ budget exhaustion); queue_send and handler-list cleanup vs add_receive_handler from real threads under the controlled scheduler, pre-emption bounded.",
       "engine iterations stepped deterministically; real threads only for the queue check (GIL, line-level switches).",
       "exhaustive scenario enumeration on the stepped engine + pre-emption-bounded thread schedules", "DESIGN.md §2 C20", "stepped engine + E5")
 
